@@ -43,6 +43,7 @@ type PathResult struct {
 	Violations []Violation
 	Covers     []string
 	Asserts    int
+	Fallbacks  int
 	Steps      int
 }
 
@@ -53,6 +54,7 @@ type Summary struct {
 	Queries      int            `json:"queries"`
 	Unknowns     int            `json:"unknowns"`
 	Asserts      int            `json:"asserts_checked"`
+	Fallbacks    int            `json:"fallback_solver_queries"`
 	SolverTimeS  float64        `json:"solver_time_s"`
 	WallS        float64        `json:"wall_s"`
 	Violations   []Violation    `json:"violations"`
@@ -77,6 +79,10 @@ type Explorer struct {
 	Params     map[string]int // harness parameters (bounds), read via vrt.Param
 	Verbose    bool
 	Deadline   time.Time
+	AssertPrefixes []string
+	NoInitCache bool
+	SiteStats map[string]int
+	siteMu sync.Mutex
 
 	intercepts    map[string]Intercept
 	pkgIntercepts map[string]Intercept
@@ -111,6 +117,7 @@ func NewExplorer(prog *ssa.Program, h *ssa.Function) *Explorer {
 	registerSQL(ex)
 	registerFactomNatives(ex)
 	registerBlobs(ex)
+	registerSnapshots(ex)
 	return ex
 }
 
@@ -175,6 +182,7 @@ func (ex *Explorer) Run() *Summary {
 			defer wg.Done()
 			var s *sym.Solver
 			npaths := 0
+			wc := &workerCache{F: sym.NewFactory(), inits: map[*ssa.Package]map[*ssa.Global]*Cell{}}
 			for {
 				ex.mu.Lock()
 				for len(ex.queue) == 0 && ex.active > 0 && !ex.stop {
@@ -190,6 +198,9 @@ func (ex *Explorer) Run() *Summary {
 				ex.active++
 				ex.mu.Unlock()
 
+				if npaths%200 == 199 {
+					wc = &workerCache{F: sym.NewFactory(), inits: map[*ssa.Package]map[*ssa.Global]*Cell{}}
+				}
 				if s == nil || npaths%200 == 199 {
 					if s != nil {
 						stMu.Lock()
@@ -209,7 +220,7 @@ func (ex *Explorer) Run() *Summary {
 					}
 				}
 				npaths++
-				res, forks := ex.runPath(s, pre)
+				res, forks := ex.runPath(s, pre, wc)
 
 				ex.mu.Lock()
 				ex.active--
@@ -252,6 +263,7 @@ func (ex *Explorer) record(r *PathResult) {
 	ex.sum.Queries += r.Queries
 	ex.sum.Unknowns += r.Unknowns
 	ex.sum.Asserts += r.Asserts
+	ex.sum.Fallbacks += r.Fallbacks
 	for _, c := range r.Covers {
 		ex.sum.Covers[c]++
 	}
@@ -272,8 +284,9 @@ func (ex *Explorer) record(r *PathResult) {
 	}
 }
 
-func (ex *Explorer) runPath(s *sym.Solver, prefix []Decision) (res *PathResult, forks [][]Decision) {
-	in := &Interp{Prog: ex.Prog, F: sym.NewFactory(), S: s, Ex: ex,
+func (ex *Explorer) runPath(s *sym.Solver, prefix []Decision, wc *workerCache) (res *PathResult, forks [][]Decision) {
+	wc.F.Vars = nil
+	in := &Interp{Prog: ex.Prog, F: wc.F, S: s, Ex: ex, wc: wc,
 		globals: map[*ssa.Global]*Cell{}, inited: map[*ssa.Package]bool{},
 		prefix: prefix, varSeq: map[string]int{}, monitor: map[string]int{},
 		stubs: map[string]Value{}, faultAt: -1, crashAt: -1,
@@ -298,7 +311,18 @@ func (ex *Explorer) runPath(s *sym.Solver, prefix []Decision) (res *PathResult, 
 					res.End, res.Msg = e.kind, e.msg
 				case goPanic:
 					res.End, res.Msg = "panic", e.String()
-					in.reportViolation("uncaught-panic", e.String(), nil)
+					func() {
+						defer func() {
+							if r2 := recover(); r2 != nil {
+								if pe, ok := r2.(pathEnd); ok {
+									res.End, res.Msg = pe.kind, pe.msg
+									return
+								}
+								panic(r2)
+							}
+						}()
+						in.reportViolation("uncaught-panic", e.String(), nil)
+					}()
 				default:
 					buf := make([]byte, 4096)
 					n := runtime.Stack(buf, false)
@@ -310,8 +334,26 @@ func (ex *Explorer) runPath(s *sym.Solver, prefix []Decision) (res *PathResult, 
 			in.initPackage(ex.Harness.Pkg)
 		}
 		in.call(ex.Harness, nil, nil)
+		in.flushAsserts()
 		res.End = "done"
 	}()
+	if len(in.pending) > 0 {
+		// the path ended early (assume/exit/panic): assertions made before that still count
+		func() {
+			defer func() {
+				if r := recover(); r != nil {
+					if pe, ok := r.(pathEnd); ok {
+						if pe.kind == "unknown" || pe.kind == "unsupported" {
+							res.End, res.Msg = pe.kind, pe.msg
+						}
+						return
+					}
+					panic(r)
+				}
+			}()
+			in.flushAsserts()
+		}()
+	}
 	if res.End == "done" || res.End == "exit" {
 		in.collectWitness()
 	}
@@ -361,21 +403,23 @@ func traceString(tr []Decision) string {
 
 func (in *Interp) reportViolation(id, note string, neg *sym.Term) {
 	var m map[string]*big.Int
+	in.S.Push()
 	if neg != nil {
-		in.S.Push()
 		in.S.Assert(neg)
-		if in.S.Check() == sym.Sat {
-			m = in.S.Model(in.F.Vars)
-		}
-		in.S.Pop()
-	} else {
-		in.S.Push()
-		if in.S.Check() == sym.Sat {
-			m = in.S.Model(in.F.Vars)
-		}
-		in.S.Pop()
 	}
+	r := in.S.Check()
+	if r == sym.Sat {
+		m = in.S.Model(in.F.Vars)
+	}
+	in.S.Pop()
 	in.Res.Queries++
+	if r == sym.Unsat {
+		// the path itself is infeasible (it was kept after an unknown feasibility answer)
+		panic(pathEnd{kind: "infeasible", msg: ""})
+	}
+	if r == sym.Unknown {
+		panic(pathEnd{kind: "unknown", msg: "solver unknown when asked for a model of a violation of " + id + " (" + note + ")"})
+	}
 	v := Violation{ID: id, Harness: in.Ex.HarnessID, Model: in.exportModel(m), Note: note, Trace: traceString(in.trace)}
 	if m != nil && len(in.observed) > 0 {
 		v.Facts = map[string]string{}
@@ -434,6 +478,18 @@ func (in *Interp) collectWitness() {
 		}
 	}
 	ex.mu.Unlock()
+}
+
+func (ex *Explorer) assertEnabled(id string) bool {
+	if len(ex.AssertPrefixes) == 0 {
+		return true
+	}
+	for _, p := range ex.AssertPrefixes {
+		if strings.HasPrefix(id, p) {
+			return true
+		}
+	}
+	return false
 }
 
 func (ex *Explorer) paramDefault(k string, d int) int {
